@@ -166,3 +166,11 @@ def r6_end_to_end(run, tree):
 
 
 RULES = [r1_r2_array_to, r3_vector_to, r4_constants, r5_registry, r6_end_to_end]
+
+
+def t_pair_space(run, tree):
+    run.rule("C08.T1", "thorough: Array.to and Vector.to over all ordered pairs of 15 units", "D7 fold of the whole Array class (and Vector.to) with dispatching numpy models and symbolic-scale units, over the complete product of the unit list", "", floor=1)
+    qs.check_to_pair_space(run, tree)
+
+
+THOROUGH_RULES = [t_pair_space]
